@@ -97,6 +97,28 @@ C04Fails(ev, T, W) ==
   THEN F_IndexFresh(T, W, T.idx, T.rank)
   ELSE {}
 
+(* GROWTH (beyond the listed properties): the hidden caches of a Tree -- tip index (ExistsTip / TipNode / TipIndex)  *)
+(* and per-branch bitsets / tip counts -- as a small state machine.  Each public call either refreshes a cache,     *)
+(* keeps it as it was, or makes no promise; the table is transcribed from the code (which calls UpdateTipIndex /    *)
+(* ReinitInternalIndexes / ReinitIndexes where).  Judged in one direction only: where the machine says "fresh", the  *)
+(* recorded look-ups and bitsets must be those of the structure.                                                    *)
+BitsRefresh == {"CollapseShortBranches", "CollapseLowSupport", "CollapseTopoDepth", "GraftTipOnEdge", "GraftTreeOnTip",
+                "InsertIdenticalTips", "Merge", "ReinitIndexes", "RemoveSingleNodes", "RemoveTips", "Reroot", "RerootFirst",
+                "RerootOutGroup", "RerootMidPoint", "Resolve", "ShuffleTips"}
+BitsKeep    == {"Clone", "RotateInternalNodes", "RotateNeighbors", "SortNeighborsByTips", "ClearLengths", "ClearSupports",
+                "ScaleLengths"}
+\* no promise: NNI (the rearranged branch keeps its old bitset), Rename (the rank of the names changes), SubTree, comment edits
+LookupsOK(T) == "found" \in DOMAIN T /\ SeqRange(T.found) = View(T).names
+BitsOK(T)    == "idx" \in DOMAIN T /\ F_IndexFresh(T, View(T), T.idx, T.rank) = {}
+CacheFails(ev, T0, T1) ==
+  IF ~("idx" \in DOMAIN T1 /\ "found" \in DOMAIN T1 /\ "idx" \in DOMAIN T0) THEN {}
+  ELSE LET V == View(T0)
+           bitsMust == \/ ev.op \in BitsRefresh
+                       \/ (ev.op \in BitsKeep /\ BitsOK(T0))
+                       \/ (ev.op = "UnRoot" /\ (IsRooted(V) \/ BitsOK(T0)))
+       IN  (IF ev.op \notin {"SubTree", "TwinCommentEdit"} /\ ~LookupsOK(T1) THEN {"G_LookupsFreshAfterOp"} ELSE {})
+           \cup (IF bitsMust /\ ~BitsOK(T1) THEN {"G_BitsetsFreshAfterOp"} ELSE {})
+
 \* all judgements of a successful step; T0 = pre, T1 = post (both of object a)
 StepFails(ev, T0, T1) ==
   LET wf1 == WFBroken(T1)
@@ -212,6 +234,7 @@ TraceOp ==
                                THEN C03Fails(Ev, T1) \cup {"ResultLeavesTheTreeDomain"} ELSE {}
                       IN  Report("C03", Ev, cls, g) /\ nfail' = nfail + Cardinality(g) /\ alive' = FALSE
                  ELSE /\ (CONFORM /\ ~Conforms(Ev, View(T0), View(T1)) => Note("DRIFT", Ev, cls))
+                      /\ (On("C04") => Report("GROWTH", Ev, cls, CacheFails(Ev, T0, T1)))
                       /\ \A p \in PropIds : Report(p, Ev, cls, r[2][p])
                       /\ nfail' = nfail + MapThenSumSet(LAMBDA p : Cardinality(r[2][p]), PropIds)
                       /\ alive' = TRUE
